@@ -252,6 +252,10 @@ func execBuildSM(in KV) string {
 	var seenHRR bool
 	hadCookieExt := false
 	hooks := &tls.VerifServerHooks{TolerateCookieEcho: true}
+	// what the HelloRetryRequest that actually went out said (the server may send one on its own when an
+	// edit removed the share of its preferred group)
+	var hrrGroup uint16
+	var hrrCookie []byte
 	hooks.RewriteHandshake = func(d []byte) []byte {
 		m, ok := parseSH(d)
 		if !ok || !m.isHRR() || seenHRR {
@@ -260,6 +264,14 @@ func execBuildSM(in KV) string {
 		seenHRR = true
 		if srv == "hrrck" {
 			applyHRRMut(m, "valid", 0, cookie)
+		}
+		if b, ok := m.get(51); ok && len(b) == 2 {
+			hrrGroup = uint16(b[0])<<8 | uint16(b[1])
+		}
+		if b, ok := m.get(44); ok && len(b) >= 2 {
+			hrrCookie = append([]byte(nil), b[2:]...)
+		}
+		if srv == "hrrck" {
 			return m.bytes()
 		}
 		return d
@@ -343,23 +355,23 @@ func execBuildSM(in KV) string {
 	}
 	// HelloRetryRequest material as the client used it
 	fresh, idx := "-", -1
+	ck := "-"
+	srvEff := "plain"
 	if seenHRR {
+		g = tls.CurveID(hrrGroup)
 		fresh = freshShare(u, int(g))
-		if !hadCookieExt {
-			for i, e := range u.Extensions {
-				if _, ok := e.(*tls.CookieExtension); ok {
-					idx = i
+		srvEff = "hrr"
+		if len(hrrCookie) > 0 {
+			srvEff = "hrrck"
+			ck = hx(hrrCookie)
+			if !hadCookieExt {
+				for i, e := range u.Extensions {
+					if _, ok := e.(*tls.CookieExtension); ok {
+						idx = i
+					}
 				}
 			}
 		}
-	}
-	ck := "-"
-	if srv == "hrrck" {
-		ck = hx(cookie)
-	}
-	srvEff := "plain"
-	if seenHRR {
-		srvEff = srv
 	}
 	cerr := "ok"
 	if res.ClientErr != nil {
